@@ -64,18 +64,10 @@ func TestMain(m *testing.M) {
 		fmt.Println(string(out))
 		os.Exit(0)
 	}
-	code := func() int {
-		defer stopWorker()
-		return m.Run()
-	}()
-	_ = code
-	h.Main(noRun{code})
+	// The worker child ends by itself (and removes its scratch directory) when this process
+	// exits and its stdin reaches EOF.
+	h.Main(m)
 }
-
-// noRun lets h.Main flush the evidence after the worker has been stopped.
-type noRun struct{ code int }
-
-func (n noRun) Run() int { return n.code }
 
 // ---------------------------------------------------------------------------------------
 // worker child
@@ -102,6 +94,9 @@ func workerMain() {
 			}
 		}
 		if err != nil {
+			if d := os.Getenv("C09_SCRATCH"); d != "" {
+				os.RemoveAll(d)
+			}
 			os.Exit(0)
 		}
 	}
@@ -321,10 +316,20 @@ func tailStr(s string, n int) string {
 	return s
 }
 
+// harnessFatal ends the test process without a verdict (the driver reports the shard as
+// inconclusive): the infrastructure failed, nothing was learnt about the property.
+func harnessFatal(msg string) {
+	fmt.Println("HARNESS-ERROR:", msg)
+	os.Exit(3)
+}
+
 func runCase(c Case, x *h.Ctx) {
 	res, d, err := runInWorker(c)
 	if err != nil {
-		panic("harness: " + err.Error())
+		harnessFatal(err.Error())
+	}
+	for _, sig := range c.Excluded {
+		x.Label("excluded:" + sig)
 	}
 	if d != nil {
 		x.Fail(d.sig, "%s", d.msg)
@@ -332,18 +337,16 @@ func runCase(c Case, x *h.Ctx) {
 		return
 	}
 	if res.Harness != "" {
-		panic("harness: " + res.Harness)
+		harnessFatal(res.Harness)
 	}
 	for _, l := range res.Labels {
 		x.Label(l)
 	}
-	excl := false
 	for _, f := range res.Fails {
 		if x.Fail(f.Sig, "%s", f.Msg) {
 			return
 		}
 	}
-	_ = excl
 	if res.NonTrivial {
 		x.NonTrivial()
 	}
@@ -359,7 +362,7 @@ type genState struct {
 	avoidEmpty  bool // the empty-tx crash is a listed finding: leave the shape out
 	avoidAdmin  bool // the 0xfe slicing crash is a listed finding: leave panicking inputs out
 	kvAnyNonce  bool // the key-value nonce finding is listed: predict nonces the way the code behaves
-	excludedAny *bool
+	excluded    map[string]bool
 }
 
 func pick(t *rapid.T, label string, weights ...int) int {
@@ -477,7 +480,7 @@ func genFrag(t *rapid.T, st *genState, inInit bool) Frag {
 			in := make([]byte, f.B)
 			copy(in, f.W)
 			if adminInputPanics(in) {
-				*st.excludedAny = true
+				st.excluded[sigAdminSlice] = true
 				if f.B < 52 {
 					f.B = 52 + f.B
 				}
@@ -570,7 +573,7 @@ func genEthTx(t *rapid.T, st *genState) TxSpec {
 				copy(s.Data, word(rapid.OneOf(rapid.Uint64Range(0, 220), rapid.SampledFrom([]uint64{0, 19, 20, 1 << 63, math.MaxUint64, math.MaxUint64 - 31, math.MaxUint64 - 11})).Draw(t, "feDlen")))
 			}
 			if st.avoidAdmin && adminInputPanics(s.Data) {
-				*st.excludedAny = true
+				st.excluded[sigAdminSlice] = true
 				d := append(word(0), from.Bytes()...)
 				d = append(d, s.Data...)
 				copy(d, word(uint64(20+len(s.Data))))
@@ -649,7 +652,7 @@ func genEthTx(t *rapid.T, st *genState) TxSpec {
 		}
 		s.Data = append(word(dlen), body...)
 		if st.avoidAdmin && adminInputPanics(s.Data) {
-			*st.excludedAny = true
+			st.excluded[sigAdminSlice] = true
 			copy(s.Data, word(uint64(len(body))))
 		}
 	}
@@ -729,7 +732,7 @@ func genTx(t *rapid.T, st *genState) TxSpec {
 		s = TxSpec{Kind: "raw"}
 		if pick(t, "rawEmpty", 1, 2) == 0 {
 			if st.avoidEmpty {
-				*st.excludedAny = true
+				st.excluded[sigEmptyTx] = true
 				s.Raw = []byte{0x80}
 			}
 		} else {
@@ -762,8 +765,7 @@ func genTx(t *rapid.T, st *genState) TxSpec {
 func genCase(t *rapid.T) Case {
 	var c Case
 	c.Routines = rapid.SampledFrom([]int{0, 1, 2, 3, 8, 16}).Draw(t, "routines")
-	excluded := false
-	st := &genState{excludedAny: &excluded}
+	st := &genState{excluded: map[string]bool{}}
 	// shapes behind listed open findings are left out of 9 cases in 10 so that the search goes
 	// on behind them; the tenth keeps hitting the finding.
 	keepKnown := rapid.IntRange(0, 9).Draw(t, "keepKnownShapes") == 0
@@ -778,6 +780,11 @@ func genCase(t *rapid.T) Case {
 			blk = append(blk, genTx(t, st))
 		}
 		c.Blocks = append(c.Blocks, blk)
+	}
+	for _, sig := range []string{sigAdminSlice, sigEmptyTx} {
+		if st.excluded[sig] {
+			c.Excluded = append(c.Excluded, sig)
+		}
 	}
 	return c
 }
@@ -838,7 +845,23 @@ func TestPrecompileSweep(t *testing.T) {
 	p := h.NewPlain(t, "C09", "presweep")
 	var rc Case
 	if h.ReplayCase("C09", "presweep", &rc) {
-		p.Case(rc, func(x *h.Ctx) { runCase(rc, x) })
+		// same output protocol as the replay mode of h.Check
+		res, d, err := runInWorker(rc)
+		if err != nil {
+			harnessFatal(err.Error())
+		}
+		if d != nil {
+			res.Fails = []Fail{{Sig: d.sig, Msg: d.msg}}
+		}
+		for _, f := range res.Fails {
+			msg := strings.ReplaceAll(f.Msg, "\n", " | ")
+			if h.IsKnownFor("C09", f.Sig) {
+				fmt.Printf("REPLAY-KNOWN sig=%s msg=%s\n", f.Sig, clip(msg, 500))
+				continue
+			}
+			fmt.Printf("REPLAY-VIOLATION sig=%s msg=%s\n", f.Sig, clip(msg, 500))
+			t.Fatalf("replayed case violates C09: [%s] %s", f.Sig, f.Msg)
+		}
 		return
 	}
 	if h.Replaying() {
